@@ -43,6 +43,12 @@ pub fn logger() -> slog::Logger {
 /// database; 0 = disarmed.
 pub struct FaultyStore {
     inner: Arc<SignerCardanoChainDataRepository>,
+    /// the database file (a second connection installs the trigger of an "inside" fault)
+    db_path: std::path::PathBuf,
+    /// the armed fault strikes INSIDE `store_blocks_and_transactions`: sqlite aborts the insert of the batch's last
+    /// transaction (a trigger), i.e. the process dies between two statements of one store call
+    inside: std::sync::atomic::AtomicBool,
+    pub fired_inside: AtomicU64,
     countdown: AtomicI64,
     pub mutating_calls: AtomicU64,
     pub fired: AtomicU64,
@@ -52,15 +58,23 @@ pub struct FaultyStore {
 }
 
 impl FaultyStore {
-    pub fn new(inner: Arc<SignerCardanoChainDataRepository>) -> Self {
-        FaultyStore { inner, countdown: AtomicI64::new(0), mutating_calls: AtomicU64::new(0), fired: AtomicU64::new(0), rollbacks_below_all_stored: AtomicU64::new(0), rollbacks: AtomicU64::new(0) }
+    pub fn new(inner: Arc<SignerCardanoChainDataRepository>, db_path: &Path) -> Self {
+        FaultyStore { inner, db_path: db_path.to_path_buf(), inside: std::sync::atomic::AtomicBool::new(false), fired_inside: AtomicU64::new(0), countdown: AtomicI64::new(0), mutating_calls: AtomicU64::new(0), fired: AtomicU64::new(0), rollbacks_below_all_stored: AtomicU64::new(0), rollbacks: AtomicU64::new(0) }
     }
     pub fn arm(&self, j: u32) {
         self.countdown.store(j as i64, Ordering::SeqCst);
         self.fired.store(0, Ordering::SeqCst);
     }
+    pub fn arm_inside(&self, j: u32) {
+        self.arm(j);
+        self.inside.store(true, Ordering::SeqCst);
+    }
     pub fn disarm(&self) {
         self.countdown.store(0, Ordering::SeqCst);
+        self.inside.store(false, Ordering::SeqCst);
+    }
+    fn side_connection(&self) -> StdResult<mithril_persistence::sqlite::SqliteConnection> {
+        ConnectionBuilder::open_file(&self.db_path).build()
     }
     pub fn has_fired(&self) -> bool {
         self.fired.load(Ordering::SeqCst) > 0
@@ -91,6 +105,37 @@ impl ChainDataStore for FaultyStore {
         self.inner.get_highest_legacy_block_range().await
     }
     async fn store_blocks_and_transactions(&self, b: Vec<CardanoBlockWithTransactions>) -> StdResult<()> {
+        if self.inside.load(Ordering::SeqCst) && self.countdown.load(Ordering::SeqCst) == 1 {
+            // the fault strikes inside this call, if the batch stores a transaction at all (else: before it, as usual)
+            if let Some(last_tx) = b.iter().rev().flat_map(|blk| blk.transactions_hashes.iter().rev()).next().cloned() {
+                self.mutating_calls.fetch_add(1, Ordering::SeqCst);
+                self.countdown.store(0, Ordering::SeqCst);
+                let side = self.side_connection()?;
+                side.execute(format!(
+                    "create trigger verif_abort before insert on cardano_tx when NEW.transaction_hash = '{last_tx}' begin select raise(abort, '{INJECTED} inside store_blocks_and_transactions'); end;"
+                ))?;
+                drop(side);
+                // (the repository panics on a failing insert: run the call as a task of its own so that the trigger
+                // can be removed again; a process that dies here runs no further code either)
+                let inner = self.inner.clone();
+                let r = tokio::task::spawn(async move { ChainDataStore::store_blocks_and_transactions(&*inner, b).await }).await;
+                let side = self.side_connection()?;
+                side.execute("drop trigger if exists verif_abort;")?;
+                return match r {
+                    Ok(Ok(())) => Ok(()),
+                    Ok(Err(e)) => {
+                        self.fired.fetch_add(1, Ordering::SeqCst);
+                        self.fired_inside.fetch_add(1, Ordering::SeqCst);
+                        Err(anyhow::anyhow!("{INJECTED} inside store_blocks_and_transactions: {e:#}"))
+                    }
+                    Err(join) => {
+                        self.fired.fetch_add(1, Ordering::SeqCst);
+                        self.fired_inside.fetch_add(1, Ordering::SeqCst);
+                        Err(anyhow::anyhow!("{INJECTED} inside store_blocks_and_transactions: the call died ({join})"))
+                    }
+                };
+            }
+        }
         self.gate("store_blocks_and_transactions")?;
         ChainDataStore::store_blocks_and_transactions(&*self.inner, b).await
     }
@@ -205,7 +250,7 @@ impl Sut {
                 .build_pool(1)?,
         );
         let repo = Arc::new(SignerCardanoChainDataRepository::new(pool));
-        let store = Arc::new(FaultyStore::new(repo.clone()));
+        let store = Arc::new(FaultyStore::new(repo.clone(), db));
         node.lock().unwrap().disconnect();
         let reader = SimNodeReader { node };
         let scanner =
